@@ -177,6 +177,13 @@ pub fn pow2_nbhd(bits: usize) -> Vec<Limbs> {
     finish(out)
 }
 
+/// G(K): K structureless words k * 0x9E3779B97F4A7C15 mod 2^64 (k = 1..=K). A fixed, explicitly
+/// enumerated alphabet (not drawn at run time) used where a rare path needs operands without
+/// any special bit structure (e.g. exact multiples whose reciprocal estimate is one too low).
+pub fn golden(k: usize) -> Vec<u64> {
+    (1..=k as u64).map(|i| i.wrapping_mul(0x9E37_79B9_7F4A_7C15)).collect()
+}
+
 /// B64: one-limb boundary alphabet.
 pub fn b64() -> Vec<u64> {
     let mut v = vec![0u64, u64::MAX, u64::MAX - 1, 0xaaaa_aaaa_aaaa_aaaa, 0x5555_5555_5555_5555];
